@@ -20,11 +20,10 @@ def reset():
 
 
 def set_size(size: int):
-    for cached in _cached:
-        wrapped = cached.__wrapped__
-        setattr(
-            sys.modules[wrapped.__module__], wrapped.__name__, lru_cache(size)(wrapped)
-        )
+    for wrapped in list(dict.fromkeys(cached.__wrapped__ for cached in _cached)):
+        resized = lru_cache(size)(wrapped)
+        setattr(sys.modules[wrapped.__module__], wrapped.__name__, resized)
+        _cached.append(resized)  # reset() must clear the resized cache too
 
 
 K = TypeVar("K")
